@@ -76,6 +76,12 @@ def project(node):
         return d
     if isinstance(node, n.Concat): return {"k": "concat", "items": [project(x) for x in node.nodes]}
     if isinstance(node, n.Getattr): return {"k": "getattr", "a": project(node.node), "n": node.attr}
+    if isinstance(node, n.Getitem) and isinstance(node.arg, n.Slice):
+        d = {"k": "slice", "a": project(node.node)}
+        if node.arg.start is not None: d["lo"] = project(node.arg.start)
+        if node.arg.stop is not None: d["hi"] = project(node.arg.stop)
+        if node.arg.step is not None: d["step"] = project(node.arg.step)
+        return d
     if isinstance(node, n.Getitem): return {"k": "getitem", "a": project(node.node), "i": project(node.arg)}
     if isinstance(node, n.Call):
         return {"k": "call", "f": project(node.node), "args": [project(a) for a in node.args],
